@@ -209,6 +209,43 @@ Section Complete.
   Qed.
 End Complete.
 
+(* ---- references THROUGH ports that have no line ("including files where a depended-on port is
+   itself absent"): the scan goes on at such a port (the recursive call of scan_deps), so what it
+   refers to - directly or again through ports without a line - is waited for too ------------------ *)
+Section Through.
+  Variable apropos : str -> option pmeta.
+  Variable keys : list str.
+  Variable orig : str.
+
+  (* [cur] refers to [t] by an entry of its own, of a parent's or of a "self:" port's metadata *)
+  Definition refers (cur t : str) : Prop :=
+    exists ic m e, In ic (lookups cur) /\ apropos (lk_path ic) = Some m /\ In e (dep_values m) /\
+                   resolve_entry (lk_parent ic) (port_name m) e (lk_base ic) = Some t /\
+                   t <> orig /\ t <> cur.
+
+  (* a chain of references from [cur] to an address that has a line, all links in between without one *)
+  Inductive reaches : str -> str -> Prop :=
+  | R_direct : forall cur t, refers cur t -> has_key keys t = true -> reaches cur t
+  | R_through : forall cur u t, refers cur u -> has_key keys u = false -> reaches u t -> reaches cur t.
+
+  Theorem scan_complete_through : forall cur t, reaches cur t ->
+    forall fuel r, scan_deps apropos keys fuel orig cur = Some r -> In t r.
+  Proof.
+    induction 1 as [cur t (ic & m & e & Hic & Hm & He & Hr & Hno & Hns) Hk
+                   |cur u t (ic & m & e & Hic & Hm & He & Hr & Hno & Hns) Hk Hreach IH]; intros fuel r H.
+    - exact (scan_complete apropos keys orig cur fuel r ic m e t H Hic Hm He Hr Hk Hno Hns).
+    - destruct fuel as [|f]; [discriminate|].
+      rewrite scan_deps_unfold in H.
+      destruct (level_some _ _ _ _ _ _ _ _ H) as [_ Hx].
+      destruct (Hx ic m e Hic Hm He) as [l' [Hl' Hinc]].
+      unfold entry_deps in Hl'. rewrite Hr in Hl'.
+      assert (E1 : str_eqb u orig = false) by (destruct (str_eqb u orig) eqn:E; [apply streqb_true in E; contradiction | reflexivity]).
+      assert (E2 : str_eqb u cur = false) by (destruct (str_eqb u cur) eqn:E; [apply streqb_true in E; contradiction | reflexivity]).
+      rewrite E1, E2, Hk in Hl'. simpl in Hl'.
+      apply Hinc. exact (IH f l' Hl').
+  Qed.
+End Through.
+
 Section Pushed.
   Variable A : Type.
   Variable apropos : str -> option pmeta.
@@ -254,6 +291,25 @@ Section Pushed.
     - rewrite Hi. left. reflexivity.
   Qed.
 
+  (* C13_edges_complete_through: ... also through ports that have no line in the file *)
+  Theorem edges_complete_through : forall (ms : list (message A)) ps k o t i,
+    pushes A apropos fuel ms = Some ps ->
+    In k (map_keys A ms) -> index_of A k ms = Some o ->
+    reaches apropos (map_keys A ms) k k t -> index_of A t ms = Some i ->
+    In (i, o) ps.
+  Proof.
+    intros ms ps k o t i Hp Hk Ho Hreach Hi.
+    rewrite pushes_unfold in Hp.
+    destruct (acc_some _ _ _ _ _ _ Hp) as [_ Hx].
+    destruct (Hx k Hk) as [l' [Hl' Hinc]].
+    unfold push_of in Hl'.
+    destruct (scan_deps apropos (map_keys A ms) fuel k k) as [ds|] eqn:Es; [|discriminate].
+    rewrite Ho in Hl'. inversion Hl'; subst l'.
+    apply Hinc. apply in_flat_map. exists t. split.
+    - exact (scan_complete_through apropos (map_keys A ms) k k t Hreach fuel ds Es).
+    - rewrite Hi. left. reflexivity.
+  Qed.
+
   (* the two kinds of lookups spelt out: the port / its parents ... *)
   Corollary edges_complete_port : forall (ms : list (message A)) ps k o (ic : bool * str) m e t i,
     pushes A apropos fuel ms = Some ps ->
@@ -285,3 +341,32 @@ Section Pushed.
     exact (edges_complete ms ps k o _ m e t i Hp Hk Ho Hl Hm He Hr Hi Hkey Hne).
   Qed.
 End Pushed.
+
+(* non-vacuity: /a depends on b, b has no line and depends on c, /c has a line: /c is pushed for /a *)
+Local Open Scope Z_scope.
+Definition ex_thr_apropos (p : str) : option pmeta :=
+  if str_eqb p [47; 97] then Some {| enabled_by := None; depends := Some [98]; default_depends := None; port_name := [97] |}
+  else if str_eqb p [47; 98] then Some {| enabled_by := None; depends := Some [99]; default_depends := None; port_name := [98] |}
+  else None.
+Example edges_through_example :
+  let ms := [([47; 97], tt); ([47; 99], tt)] in
+  reaches ex_thr_apropos (map_keys unit ms) [47; 97] [47; 97] [47; 99] /\
+  has_key (map_keys unit ms) [47; 98] = false /\
+  pushes unit ex_thr_apropos 5 ms = Some [(1%nat, 0%nat)].
+Proof.
+  cbv zeta. split; [|split; vm_compute; reflexivity].
+  apply R_through with (u := [47; 98]).
+  - exists {| lk_path := [47; 97]; lk_base := [47; 97]; lk_parent := false |},
+           {| enabled_by := None; depends := Some [98]; default_depends := None; port_name := [97] |}, [98].
+    repeat split; try (vm_compute; reflexivity); try discriminate.
+    + vm_compute. left. reflexivity.
+    + vm_compute. left. reflexivity.
+  - vm_compute. reflexivity.
+  - apply R_direct.
+    + exists {| lk_path := [47; 98]; lk_base := [47; 98]; lk_parent := false |},
+             {| enabled_by := None; depends := Some [99]; default_depends := None; port_name := [98] |}, [99].
+      repeat split; try (vm_compute; reflexivity); try discriminate.
+      * vm_compute. left. reflexivity.
+      * vm_compute. left. reflexivity.
+    + vm_compute. reflexivity.
+Qed.
